@@ -1,5 +1,6 @@
 ---------------------------- MODULE MC_Lock ----------------------------
 EXTENDS Lock, Json
+CONSTANT MaxTotal   \* bound on the total number of API calls for the edge export (CONSTRAINT Cap)
 \* Model-checking harness for Lock: edge export for the replay driver.
 
 StateRec(q, qm, pcs, ks, cr, rd, cn, st, ni, cl) ==
@@ -16,4 +17,5 @@ ExportEdge ==
 
 \* bound for the edge export (total API calls)
 TotalCalls == LET S[P \in SUBSET Procs] == IF P = {} THEN 0 ELSE LET p == CHOOSE x \in P : TRUE IN calls[p] + S[P \ {p}] IN S[Procs]
+Cap == TotalCalls <= MaxTotal
 =============================================================================
